@@ -46,7 +46,18 @@ func i2RegexTargets(r *rng, f *rules.NetworkRule, k int) []string {
 		return []string{"", "http://example.org/", "x"}
 	}
 	var out []string
-	for _, s := range reSubjects(r, tree, k, 6+r.n(60)) {
+	subs := reSubjects(r, tree, k, 6+r.n(60))
+	if inner := ruleInner(f); quirkTwoCase(inner) {
+		// group P3: subjects that tell Go's reading of the expression from the textbook one
+		if qs := quirkSubjects(r, inner, 2); len(qs) > 0 {
+			for i := range subs {
+				if r.chance(2, 3) {
+					subs[i] = pick(r, qs)
+				}
+			}
+		}
+	}
+	for _, s := range subs {
 		switch r.n(4) {
 		case 0:
 			s = pick(r, poolSchemes) + "://" + pick(r, poolDomains) + "/" + s
@@ -112,8 +123,11 @@ func genI2Pat(r *rng, n int, w *bufio.Writer) {
 			f = rs[rounds%len(rs)]
 			rounds++
 			targets = i2RegexTargets(r, f, 2+r.n(2))
-		case k < 6:
+		case k < 5:
 			f = genRegexRule(r)
+			targets = i2RegexTargets(r, f, 2+r.n(3))
+		case k < 6:
+			f = genQuirkRule(r)
 			targets = i2RegexTargets(r, f, 2+r.n(3))
 		case k < 11:
 			// mask patterns of group G's generator, subjects derived from the stored pattern
@@ -174,6 +188,9 @@ func genI2Match(r *rng, n int, w *bufio.Writer) {
 		case k < 2:
 			// regex rules: bundled or generated, request sampled from the parse tree
 			f = pickRegexRule(r)
+			if r.chance(1, 3) {
+				f = genQuirkRule(r)
+			}
 			t = f.RuleText
 			u := pick(r, i2RegexTargets(r, f, 1))
 			if !strings.Contains(u, "://") && r.chance(2, 3) {
